@@ -83,6 +83,7 @@ type Ctx struct {
 	unfoldDepth int
 	fuel        int
 	genN        int
+	specDepth   int
 	pending     []pendingFact
 	quantVars   []string
 }
